@@ -84,6 +84,7 @@ func runC10(w *World, r *Report) {
 		}
 	}
 	r.Rule("pool-disjoint", "every buffer put into the pool has backing storage of its own", 1)
+	r.Rule("inframe", "no packet-header decoder the parser reaches indexes or re-slices its input beyond its length (the C08 bounds rule): behind a frame, the pooled buffer holds earlier frames", 200)
 	so, miss := w.streamObjs()
 	if miss != "" {
 		r.Fail(VViolation, "roles", "util.MessageStream", "", "-", miss)
@@ -906,6 +907,19 @@ func runC10(w *World, r *Report) {
 			continue
 		}
 		o.Rule = "owns-memory"
+		r.Add(o)
+	}
+	// ---------------------------------------------------------------- inframe (C08's bounds rule, as part of this property's statement)
+	// a frame sits at the start of a recycled 2 KiB pool buffer; the bytes behind it are those of earlier frames.
+	// A packet-header decoder that re-slices its input beyond len (inside the spare capacity Go allows) hands the
+	// consumer a message that contains them: every slice end must be proved <= len of what the decoder was given
+	r3 := NewReport(r.Prop, r.Tier)
+	runC08(w, r3)
+	for _, o := range r3.Obs {
+		if o.Rule != "bounds" {
+			continue
+		}
+		o.Rule = "inframe"
 		r.Add(o)
 	}
 }
